@@ -1,24 +1,100 @@
 import Mltwist.Model.Transform
 import Mltwist.Spec.Subterms
 /-
-Helper lemmas for C28.  (Proofs to be supplied.)
+Helper lemmas for C28.
 -/
 namespace Mltwist.Lemmas.Structural
 open Mltwist
 
 theorem equal_iff (a b : Expr) : equal a b = true ↔ a = b := by
-  sorry
+  induction a generalizing b with
+  | const bs => cases b <;> simp [equal]
+  | binary op a1 b1 w iha ihb =>
+    cases b <;> simp [equal, iha, ihb]
+    constructor <;> (intro h; simp [h])
+  | less a1 b1 t1 f1 w iha ihb iht ihf =>
+    cases b <;> simp [equal, iha, ihb, iht, ihf]
+    constructor <;> (intro h; simp [h])
+  | memLoad k a1 w iha =>
+    cases b <;> simp [equal, iha]
+    constructor <;> (intro h; simp [h])
+  | regLoad k w =>
+    cases b <;> simp [equal]
+    constructor <;> (intro h; simp [h])
 
 theorem findAll_spec (k : Kind) (e : Expr) :
     findAll k e = e.subterms.filter (fun s => decide (s.kind = k)) := by
-  sorry
+  induction e with
+  | const bs => simp [findAll, Expr.subterms, List.filter_cons]
+  | binary op a b w iha ihb =>
+    simp [findAll, Expr.subterms, List.filter_cons, List.filter_append, iha, ihb]
+    split <;> simp
+  | less a b t f w iha ihb iht ihf =>
+    simp [findAll, Expr.subterms, List.filter_cons, List.filter_append, iha, ihb, iht, ihf]
+    split <;> simp
+  | memLoad key a w iha =>
+    simp [findAll, Expr.subterms, List.filter_cons, iha]
+    split <;> simp
+  | regLoad key w => simp [findAll, Expr.subterms, List.filter_cons]
 
 theorem replaceAll_spec (k : Kind) (f : Expr → Option Expr) (e : Expr) :
     replaceAll k f e = e.mapBottomUp (fun s => if s.kind = k then (f s).getD s else s) := by
-  sorry
+  induction e with
+  | const bs => simp [replaceAll, Expr.mapBottomUp]
+  | binary op a b w iha ihb =>
+    rw [replaceAll, Expr.mapBottomUp, ← iha, ← ihb]
+    by_cases hk : k = .binary
+    · subst hk; simp [Expr.kind]
+    · have hk' : ¬ Kind.binary = k := fun h => hk h.symm
+      simp [Expr.kind, hk, hk']
+  | less a b t f' w iha ihb iht ihf =>
+    rw [replaceAll, Expr.mapBottomUp, ← iha, ← ihb, ← iht, ← ihf]
+    by_cases hk : k = .less
+    · subst hk; simp [Expr.kind]
+    · have hk' : ¬ Kind.less = k := fun h => hk h.symm
+      simp [Expr.kind, hk, hk']
+  | memLoad key a w iha =>
+    rw [replaceAll, Expr.mapBottomUp, ← iha]
+    by_cases hk : k = .memLoad
+    · subst hk; simp [Expr.kind]
+    · have hk' : ¬ Kind.memLoad = k := fun h => hk h.symm
+      simp [Expr.kind, hk, hk']
+  | regLoad key w => simp [replaceAll, Expr.mapBottomUp]
 
 theorem replaceAll_nomatch (k : Kind) (f : Expr → Option Expr) (e : Expr)
     (h : ∀ s ∈ e.subterms, s.kind = k → f s = none) : replaceAll k f e = e := by
-  sorry
+  induction e with
+  | const bs =>
+    simp only [replaceAll]
+    split
+    · next hk => rw [h _ (by simp [Expr.subterms]) hk]; rfl
+    · rfl
+  | binary op a b w iha ihb =>
+    have ha := iha (fun s hs => h s (by simp [Expr.subterms, hs]))
+    have hb := ihb (fun s hs => h s (by simp [Expr.subterms, hs]))
+    simp only [replaceAll, ha, hb]
+    split
+    · next hk => rw [h _ (by simp [Expr.subterms]) (by simp [Expr.kind, hk])]; rfl
+    · rfl
+  | less a b t f' w iha ihb iht ihf =>
+    have ha := iha (fun s hs => h s (by simp [Expr.subterms, hs]))
+    have hb := ihb (fun s hs => h s (by simp [Expr.subterms, hs]))
+    have ht := iht (fun s hs => h s (by simp [Expr.subterms, hs]))
+    have hf := ihf (fun s hs => h s (by simp [Expr.subterms, hs]))
+    simp only [replaceAll, ha, hb, ht, hf]
+    split
+    · next hk => rw [h _ (by simp [Expr.subterms]) (by simp [Expr.kind, hk])]; rfl
+    · rfl
+  | memLoad key a w iha =>
+    have ha := iha (fun s hs => h s (by simp [Expr.subterms, hs]))
+    simp only [replaceAll, ha]
+    split
+    · next hk => rw [h _ (by simp [Expr.subterms]) (by simp [Expr.kind, hk])]; rfl
+    · rfl
+  | regLoad key w =>
+    simp only [replaceAll]
+    split
+    · next hk => rw [h _ (by simp [Expr.subterms]) hk]; rfl
+    · rfl
 
 end Mltwist.Lemmas.Structural
